@@ -138,7 +138,8 @@ Definition lint_infix_compare (op : string) (left right : ty) (right_is_literal 
   if mem_str op ["=="; "!="] then
     let l := match left with TReqBackend => TBackend | t => t end in
     let r := match right with TReqBackend => TBackend | t => t end in
-    ty_eqb l r
+    (* an IP is compared with a STRING through the implicit STRING to IP conversion *)
+    (ty_eqb l TIP && ty_eqb r TString) || ty_eqb l r
   else if mem_str op [">"; ">="; "<"; "<="] then
     (match left with
      | TInteger => match right with TInteger | TRTime => true | _ => false end
